@@ -328,7 +328,7 @@ fn main() {
     common::main_loop(|kind, args| match kind {
         "fault" => run_fault(args),
         "count" => run_count(args),
-        "meter" => run_meter(args),
+        "meter" | "meterx" => run_meter(args),
         _ => format!("unknown-kind {kind}"),
     });
 }
